@@ -51,6 +51,10 @@ theorem normalize_keys_ok : normalize_keys.all (fun k => normalizeKeysAllowed.co
 theorem window_eq : window_linspace = windowLinspace ∧ window_guard = windowGuardClauses ∧
     window_products = windowProducts ∧ window_axis = -2 := by decide
 
+/-- the ACS masking is `torch.where(mask == 0, 0, kspace)` (`Sens.maskPixels`): exact zeros off the mask, the data
+itself (not a product) on it -/
+theorem acs_mask_where_eq : acs_mask_where = applyMaskWhere := by decide
+
 /-- `forward` has exactly the three branches of `Sens.forwardMap`, all flowing into the one guarded division that is
 written to the sample; the ESPIRiT branch is limited to 2-D -/
 theorem forward_branches_eq : forward_branches = forwardBranches ∧ forward_output_writes = forwardOutputWrites ∧
